@@ -85,3 +85,8 @@ package peer
 //@ census[C32] (*Manager).readLoop in (*Manager).registerConnection
 //@ census[C32] (*Manager).keepaliveLoop in (*Manager).registerConnection
 //@ census[C32] dynamic.OnPeerDisconnect in (*Manager).handleDisconnect
+
+// ---- C07: the peer package writes to a connection only through protocol.FrameWriter ----
+//@ census[C07] (*FrameWriter).Write in (*Connection).WriteFrame, (*Handshaker).dialerHandshake, (*Handshaker).listenerHandshake
+//@ census[C07] transport.Stream.Write in -
+//@ census[C07] io.Writer.Write in -
